@@ -133,8 +133,14 @@ package boltz
 
 // Delete: one change flow per child store that holds the entity plus one for the store itself, each fired exactly once,
 // in order, as the last registrations; the store's own flow is marked as parent event iff a child flow exists
+// pdN/pdWho/pdId: the log of processDeleteConstraints calls (which store, for which id)
+//@ ghost pdN : Int private
+//@ ghost pdWho : (Array Int Int) private
+//@ ghost pdId : (Array Int Str) private
+//@ spec cssStore(strategy Int) Int
 //@ func (storeInternal).processDeleteConstraints
-//@   modifies *, ocCnt, ocFn, ocRecv, cxN, cxWho, cxPhase, cxCtx, cxPersist, edDone
+//@   modifies *, ocCnt, ocFn, ocRecv, cxN, cxWho, cxPhase, cxCtx, cxPersist, edDone, pdN, pdWho, pdId
+//@   ensures[logged] pdN == old(pdN) + 1 && pdWho == sto(old(pdWho), old(pdN), ref(self)) && pdId == sto(old(pdId), old(pdN), id)
 //@   ensures[a-delete-flow] result0 != nil ==> fresh(result0) && istype(result0, *EntityChangeState) && as(result0, *EntityChangeState).Ctx == ctx && as(result0, *EntityChangeState).ChangeType == EntityDeleted && as(result0, *EntityChangeState).EntityId == id
 //@ func (*BaseStore).processDeleteConstraints
 //@   props C07 C08 C03 C05 C06
@@ -146,16 +152,22 @@ package boltz
 //@   lensures[holder] errHolder.Err != nil ==> result1 != nil
 //@   lensures[a-delete-flow] result0 != nil ==> result0 == changeFlow && changeFlow.ChangeType == EntityDeleted && changeFlow.Ctx == ctx && changeFlow.EntityId == id
 //@ func (Store).DeleteById
-//@   modifies *, ocCnt, ocFn, ocRecv, cxN, cxWho, cxPhase, cxCtx, cxPersist, edDone
+//@   modifies *, ocCnt, ocFn, ocRecv, cxN, cxWho, cxPhase, cxCtx, cxPersist, edDone, pdN, pdWho, pdId
 //@ func (ChildStoreStrategy).HandleDelete
 //@   modifies *, ocCnt, ocFn, ocRecv, cxN, cxWho, cxPhase, cxCtx, cxPersist, edDone
 //@ func (ChildStoreStrategy).GetStore
 //@   pure
+//@   ensures[the-child-store] result != nil && ref(result) == cssStore(self)
 //@ func (*BaseStore).DeleteById
-//@   props C08 C07
+//@   props C08 C07 C06 C15
 //@   errflow
 //@   nosafety
-//@   modifies *, ocCnt, ocFn, ocRecv, ecsParent, cxN, cxWho, cxPhase, cxCtx, cxPersist, edDone
+//@   modifies *, ocCnt, ocFn, ocRecv, ecsParent, cxN, cxWho, cxPhase, cxCtx, cxPersist, edDone, pdN, pdWho, pdId
+//@   callpre[a-child-store-delegates-to-its-parent-with-the-same-id] DeleteById@1: ref(recv) == ref(store.parent) && arg0 == ctx && arg1 == id
+//@   callpre[child-store-constraints-for-the-same-id] processDeleteConstraints@1: arg0 == ctx && arg1 == id
+//@   callpre[own-constraints-for-the-same-id] processDeleteConstraints@2: ref(recv) == ref(store.impl) && arg0 == ctx && arg1 == id
+//@   callpre[the-entity's-bucket-goes-last-after-every-store's-cleanup] DeleteEntity@1: arg0 == id && pdN == old(pdN) + len(store.childStoreStrategies) + 1 && forall(i, 0 <= i && i < len(store.childStoreStrategies) ==> sel(pdWho, old(pdN) + i) == cssStore(store.childStoreStrategies[i]) && sel(pdId, old(pdN) + i) == id) && sel(pdWho, pdN - 1) == ref(store.impl) && sel(pdId, pdN - 1) == id
+//@   invariant[children-cleaned-in-order] 1: pdN == old(pdN) + rangeindex + 1 && forall(i, 0 <= i && i <= rangeindex ==> sel(pdWho, old(pdN) + i) == cssStore(store.childStoreStrategies[i]) && sel(pdId, old(pdN) + i) == id)
 //@   lensures[every-flow-fired-once-in-order] result == nil && store.parent == nil && bucket != nil && changeFlows[0] != nil ==> forall(j, 0 <= j && j < len(changeFlows) ==> sel(ocRecv[ctxTx[ctx]], ocCnt[ctxTx[ctx]] - len(changeFlows) + j) == ref(changeFlows[j]))
 //@   invariant 1: len(changeFlows) >= 1 && (hasChildren == (len(changeFlows) > 1)) && forall(j, 1 <= j && j < len(changeFlows) ==> changeFlows[j] != nil && ecsCtx[changeFlows[j]] == ref(ctx))
 //@   invariant 2: len(changeFlows) >= 1 && (changeFlows[0] != nil ==> len(changeFlows) >= 1 && forall(j, 0 <= j && j < len(changeFlows) ==> changeFlows[j] != nil && ecsCtx[changeFlows[j]] == ref(ctx)) && forall(j, 0 <= j && j <= rangeindex ==> sel(ocRecv[ctxTx[ctx]], ocCnt[ctxTx[ctx]] - (rangeindex + 1) + j) == ref(changeFlows[j])))
@@ -163,7 +175,7 @@ package boltz
 //@   props C07
 //@   errflow
 //@   nosafety
-//@   modifies *, ocCnt, ocFn, ocRecv, cxN, cxWho, cxPhase, cxCtx, cxPersist, edDone
+//@   modifies *, ocCnt, ocFn, ocRecv, cxN, cxWho, cxPhase, cxCtx, cxPersist, edDone, pdN, pdWho, pdId
 
 // ---- delivery: what runs after the commit ----
 // ppN/ppWho/ppState: the log of ProcessPostCommit calls (which constraint, with which state)
